@@ -8,29 +8,58 @@ class C08(Oracle):
 
     def __init__(self, R):
         Oracle.__init__(self, R)
-        self.order = {}        # node -> ids in order of acceptance (shadow)
+        self.lines = {}        # node -> {priority: ids in the order they joined that priority line} (shadow, from micro-events)
+        self.where = {}        # (node, id) -> priority line the shadow has it in
         self.inserv = {}       # node -> ids holding a server (shadow, from attach/detach)
-        self.moved = set()     # (node, id) whose priority class changed while waiting in this visit
         self.decisions = []    # decisions of the current B-event: (node, chosen id)
         self.rich = 0
+        self.cc_expected = None
         R.hooks.decision_cbs.append(self.on_decision)
 
     def domain(self, node_id):
         return self.R.kind(self.R.sim.transitive_nodes[node_id - 1]) in ("int", "sched")
 
+    def prio_of(self, nid, iid):
+        nd = self.R.sim.transitive_nodes[nid - 1]
+        for i in self.R.inds(nd):
+            if i.id_number == iid:
+                return i.priority_class
+        return None
+
     def before(self, node):
+        R = self.R
         self.decisions = []
+        self.cc_expected = None
+        if R.ev_type == "class_change" and self.domain(R.ev_nid):
+            # among waiting customers whose class change is due now, the one standing first in the queue changes first
+            best = None
+            for k in sorted(self.lines.get(R.ev_nid, {})):
+                for iid in self.lines[R.ev_nid][k]:
+                    if iid in self.inserv.get(R.ev_nid, set()):
+                        continue
+                    for i in R.inds(node):
+                        if i.id_number == iid and getattr(i, "class_change_date", None) == R.t:
+                            best = iid
+                            break
+                    if best is not None:
+                        break
+                if best is not None:
+                    break
+            self.cc_expected = best
 
     def micro(self, ev):
         k = ev[2]
         if k == "acc":
-            self.order.setdefault(ev[3], []).append(ev[4])
+            nid, iid = ev[3], ev[4]
+            p = self.prio_of(nid, iid)
+            self.lines.setdefault(nid, {}).setdefault(p, []).append(iid)
+            self.where[(nid, iid)] = p
         elif k in ("rel", "ren"):
             nid, iid = ev[3], ev[5]
-            o = self.order.get(nid, [])
-            if iid in o:
-                o.remove(iid)
-            self.moved.discard((nid, iid))
+            p = self.where.pop((nid, iid), None)
+            line = self.lines.get(nid, {}).get(p, [])
+            if iid in line:
+                line.remove(iid)
             self.inserv.setdefault(nid, set()).discard(iid)
         elif k == "att":
             nid, iid = ev[3], ev[5]
@@ -46,9 +75,18 @@ class C08(Oracle):
             self.inserv.setdefault(ev[3], set()).discard(ev[5])
         elif k == "cc":
             nid, iid = ev[3], ev[4]
+            if self.cc_expected is not None and iid != self.cc_expected and self.domain(nid):
+                self.fail("simultaneous-class-changes-out-of-queue-order", "node %s: ind %s changed class at %r before ind %s, which stands ahead of it in the queue and is due at the same instant" % (
+                    nid, iid, self.R.t, self.cc_expected))
+            self.cc_expected = None
             pm = self.R.S["prio"] or {}
-            if pm.get(ev[5], 0) != pm.get(ev[6], 0):
-                self.moved.add((nid, iid))
+            old, new = pm.get(ev[5], 0), pm.get(ev[6], 0)
+            if old != new and (nid, iid) in self.where:
+                line = self.lines.get(nid, {}).get(self.where[(nid, iid)], [])
+                if iid in line:
+                    line.remove(iid)
+                self.lines.setdefault(nid, {}).setdefault(new, []).append(iid)     # joins the end of its new priority line
+                self.where[(nid, iid)] = new
 
     def on_decision(self, node_id, name, individuals, t, chosen):
         R = self.R
@@ -56,29 +94,34 @@ class C08(Oracle):
             return
         nd = R.sim.transitive_nodes[node_id - 1]
         present = {i.id_number: i for i in R.inds(nd)}
-        order = self.order.get(node_id, [])
-        known = set(order)
         ins = self.inserv.get(node_id, set())
-        cand = [iid for iid in order if iid in present and iid not in ins]
+        lines = self.lines.get(node_id, {})
+        known = set(i for l in lines.values() for i in l)
         new = [iid for iid in present if iid not in known]
         if len(new) > 1:
             self.fail("several-unannounced-customers", "node %s: %r" % (node_id, new))
-        cand += new
+        cand = {}
+        for p, l in lines.items():
+            w = [iid for iid in l if iid in present and iid not in ins]
+            if w:
+                cand[p] = w
+        for iid in new:       # the customer being accepted right now: last of its priority line
+            cand.setdefault(present[iid].priority_class, []).append(iid)
         cid = getattr(chosen, "id_number", None)
         if not cand:
             self.fail("decision-with-nobody-waiting", "node %s chose %r" % (node_id, cid))
-        if cid not in cand:
-            self.fail("chosen-customer-not-waiting", "node %s chose ind %r; waiting: %r" % (node_id, cid, cand))
-        best = min(present[i].priority_class for i in cand)
-        bestc = [i for i in cand if present[i].priority_class == best]
-        if present[cid].priority_class != best:
+        allc = [i for l in cand.values() for i in l]
+        if cid not in allc:
+            self.fail("chosen-customer-not-waiting", "node %s chose ind %r; waiting: %r" % (node_id, cid, allc))
+        best = min(cand)
+        bestc = cand[best]
+        if cid not in bestc:
             self.fail("lower-priority-chosen", "node %s chose ind %s of priority %s while priority %s waits (%r)" % (node_id, cid, present[cid].priority_class, best, bestc))
-        if not any((node_id, i) in self.moved for i in bestc):
-            if name == "FIFO" and cid != bestc[0]:
-                self.fail("fifo-order", "node %s FIFO chose ind %s, earliest waiting of the class is %s (%r)" % (node_id, cid, bestc[0], bestc))
-            if name == "LIFO" and cid != bestc[-1]:
-                self.fail("lifo-order", "node %s LIFO chose ind %s, latest waiting of the class is %s (%r)" % (node_id, cid, bestc[-1], bestc))
-        if len(cand) >= 2 and len(set(present[i].customer_class for i in cand)) >= 2:
+        if name == "FIFO" and cid != bestc[0]:
+            self.fail("fifo-order", "node %s FIFO chose ind %s, earliest waiting of the class is %s (%r)" % (node_id, cid, bestc[0], bestc))
+        if name == "LIFO" and cid != bestc[-1]:
+            self.fail("lifo-order", "node %s LIFO chose ind %s, latest waiting of the class is %s (%r)" % (node_id, cid, bestc[-1], bestc))
+        if len(allc) >= 2 and len(set(present[i].customer_class for i in allc)) >= 2:
             self.rich += 1
         self.decisions.append((node_id, cid))
 
